@@ -166,3 +166,16 @@ pub proof fn lemma_abs_le_width(v: expr::ValueExpr, ctx: DisplayContext)
         None => { axiom_width_cjk_ascii(t); lemma_ascii_utf8_len(t); }
     }
 }
+
+/// ASSUMED (unicode-width, non-CJK variant): one column per printable ASCII character
+#[verifier::external_body]
+pub proof fn axiom_width_ascii(s: Seq<char>)
+    requires printable_ascii(s),
+    ensures width_spec(s) == s.len()
+{}
+/// the clear mark (``, `* `, `! `) is printable ASCII: its bytes, characters and columns coincide
+pub proof fn lemma_clear_mark_width(v: ClearState)
+    ensures width_spec(clear_mark(v)) == clear_mark(v).len(), utf8_len(clear_mark(v)) == clear_mark(v).len()
+{
+    axiom_width_ascii(clear_mark(v)); lemma_ascii_utf8_len(clear_mark(v));
+}
